@@ -658,7 +658,13 @@ impl Prop for C04 {
                 });
             } else if fired {
                 let ok = match &got.outcome {
-                    Outcome::Io { kind: gk, msg } => *gk == kind && msg.contains(&s.fail_msg()),
+                    // kind and text, and for simulated (non-OS) failures the typed payload itself:
+                    // an error rebuilt from kind + text is not "that I/O error"
+                    Outcome::Io { kind: gk, msg, payload } => {
+                        *gk == kind
+                            && msg.contains(&s.fail_msg())
+                            && (os.is_some() || *payload == s.cfg.fail_at.map(|f| f.0))
+                    }
                     Outcome::Panic(p) => {
                         if matches!(&free.outcome, Outcome::Panic(q) if q == p) {
                             st.hit("note.panic_identical_to_fault_free_run");
@@ -679,6 +685,9 @@ impl Prop for C04 {
                                 Outcome::CleanEnd => "clean end".to_string(),
                                 Outcome::Syntax { msg, .. } =>
                                     format!("syntax error ({})", msg_class(msg)),
+                                Outcome::Io { kind: gk, msg, payload }
+                                    if *gk == kind && msg.contains(&s.fail_msg()) =>
+                                    format!("an io error of the same kind and text but not the source's error (typed payload: {payload:?})"),
                                 Outcome::Io { .. } => "a different io error".to_string(),
                                 Outcome::Panic(p) => format!("panic at {}:{}", p.file, p.line),
                             }
